@@ -110,6 +110,66 @@ type MList struct{ N int }
 // MarshalValue implements data.Marshaler.
 func (m MList) MarshalValue() data.Value { return data.List{data.Int(m.N), data.String("x")} }
 
+// PMoney marshals itself through a POINTER receiver: only *PMoney implements
+// data.Marshaler; a PMoney value is a plain struct.
+type PMoney struct {
+	Cents    int64
+	Currency string
+}
+
+// MarshalValue implements data.Marshaler (pointer receiver).
+func (m *PMoney) MarshalValue() data.Value {
+	return data.Map{"amount": data.Int(m.Cents), "code": data.String(m.Currency)}
+}
+
+// PInt is a pointer-receiver marshaler on a non-struct type.
+type PInt int
+
+// MarshalValue implements data.Marshaler (pointer receiver).
+func (p *PInt) MarshalValue() data.Value { return data.String(fmt.Sprintf("pint:%d", int(*p))) }
+
+// MAny returns whatever data.Value it holds (nil included); value receiver.
+type MAny struct{ V data.Value }
+
+// MarshalValue implements data.Marshaler.
+func (m MAny) MarshalValue() data.Value { return m.V }
+
+// PAny is MAny with a pointer receiver.
+type PAny struct{ V data.Value }
+
+// MarshalValue implements data.Marshaler (pointer receiver).
+func (m *PAny) MarshalValue() data.Value { return m.V }
+
+// OuterMV embeds a value-receiver marshaler: MarshalValue is promoted, so
+// OuterMV and *OuterMV are marshalers themselves.
+type OuterMV struct {
+	MIDURL
+	Y interface{}
+}
+
+// OuterPM embeds a pointer-receiver marshaler by value: only *OuterPM gets
+// the promoted method.
+type OuterPM struct {
+	PMoney
+	Y interface{}
+}
+
+// OuterPMP embeds a pointer to a pointer-receiver marshaler: OuterPMP and
+// *OuterPMP both get the promoted method.
+type OuterPMP struct {
+	*PMoney
+	Y interface{}
+}
+
+var marshalerTypes = map[string]reflect.Type{
+	"idurl": reflect.TypeOf(MIDURL{}), "mint": reflect.TypeOf(MInt(0)), "mnull": reflect.TypeOf(MNull{}),
+	"mlist": reflect.TypeOf(MList{}), "many": reflect.TypeOf(MAny{}),
+	"pmoney": reflect.TypeOf(PMoney{}), "pint": reflect.TypeOf(PInt(0)), "pany": reflect.TypeOf(PAny{}),
+}
+
+// pointer-receiver marshaler types (SoyData!PtrRecvTypes)
+var ptrRecv = map[string]bool{"pmoney": true, "pint": true, "pany": true}
+
 var (
 	ifaceType = reflect.TypeOf((*interface{})(nil)).Elem()
 	valueType = reflect.TypeOf((*data.Value)(nil)).Elem()
@@ -127,6 +187,8 @@ var declared = map[string]reflect.Type{
 	"OuterS": reflect.TypeOf(OuterS{}),
 	"Uni":    reflect.TypeOf(Uni{}),
 	"Typed":  reflect.TypeOf(Typed{}),
+	"OuterMV": reflect.TypeOf(OuterMV{}), "OuterPM": reflect.TypeOf(OuterPM{}), "OuterPMP": reflect.TypeOf(OuterPMP{}),
+	"PMoney": reflect.TypeOf(PMoney{}), "PAny": reflect.TypeOf(PAny{}),
 }
 
 var intKinds = map[string]reflect.Type{
@@ -170,10 +232,11 @@ func typeByName(n string) (reflect.Type, error) {
 		return reflect.TypeOf(map[string]string(nil)), nil
 	case "ptr:int":
 		return reflect.TypeOf((*int)(nil)), nil
-	case "marshaler:idurl":
-		return reflect.TypeOf(MIDURL{}), nil
-	case "marshaler:mint":
-		return reflect.TypeOf(MInt(0)), nil
+	}
+	if len(n) > 10 && n[:10] == "marshaler:" {
+		if t, ok := marshalerTypes[n[10:]]; ok {
+			return t, nil
+		}
 	}
 	if t, ok := intKinds[n]; ok {
 		return t, nil
